@@ -3,9 +3,9 @@
 # confirm in a scratch worktree, run the given checks against a patched copy of /repo, keep under /verif/seeded/<ID>-<mK>/
 set -u
 ID="$1"; M="$2"; shift 2
-SRC=/tmp/seed/$ID/_out/$M
-DST=/verif/seeded/$ID-$M
-SLOT=$ID-$M
+SRC=${SEEDROOT:-/tmp/seed}/$ID/_out/$M
+DST=/verif/seeded/$ID-${TAG:-}$M
+SLOT=$ID-${TAG:-}$M
 [ -f "$SRC/patch.diff" ] || { echo "no $SRC/patch.diff"; exit 2; }
 conf=$(/verif/tools/confirm_mutant.sh "$SRC" "$SLOT" 2>&1 | tail -2)
 echo "$conf"
@@ -15,7 +15,7 @@ echo "$res"
 mkdir -p "$DST"
 cp "$SRC/patch.diff" "$DST/patch.diff"; cp "$SRC/demo.rs" "$DST/demo.rs"; cp "$SRC/meta.json" "$DST/agent_meta.json"
 python3 - "$ID" "$M" "$DST" "$conf" "$res" "$*" <<'PY'
-import json, sys, re
+import json, sys, re, os
 ID, M, DST, conf, res, checks = sys.argv[1:7]
 agent = {}
 try: agent = json.load(open(DST + "/agent_meta.json"))
@@ -27,7 +27,7 @@ for line in res.splitlines():
     if m: cur = m.group(1); caught[cur] = {"exit": int(m.group(2)), "detail": ""}
     elif cur and line.startswith("failure in"): caught[cur]["detail"] = line[:300]
 meta = {
-  "property": ID, "mutant": M,
+  "property": ID, "mutant": os.path.basename(DST),
   "breaks": agent.get("summary", ""),
   "needs_to_manifest": agent.get("needs_to_manifest", ""),
   "confirmed_by_me": conf.splitlines()[0] if conf else "",
